@@ -2,7 +2,6 @@ package main
 
 import (
 	"fmt"
-	"go/token"
 	"go/types"
 	"sort"
 	"strings"
@@ -123,7 +122,7 @@ func (c *fnCtx) run() (err error) {
 	c.assertGlobal("cur!0")
 	c.declare("top!0", "Int")
 	c.assertGlobal("(>= top!0 0)")
-	st := &State{cur: "cur!0", heap: map[string]string{}, ghost: map[string]string{}, top: "top!0"}
+	st := &State{cur: "cur!0", heap: map[string]string{}, ghost: map[string]string{}, hbound: map[string]string{}, top: "top!0", baseTop: "top!0"}
 	c.entry = st
 	for _, p := range fn.Params {
 		v := c.freshVal(st, p.Type(), "p_"+p.Name())
@@ -140,13 +139,16 @@ func (c *fnCtx) run() (err error) {
 		c.vals[fv] = c.freshVal(st, fv.Type(), "fv_"+fv.Name())
 	}
 	for _, d := range c.g.axioms {
+		if fn.Pkg == nil || d.Pkg != fn.Pkg.Pkg.Path() || c.bv {
+			continue
+		}
 		env := c.newEnv(st, st)
 		r, err := env.evalBool(d.Text)
 		if err != nil {
 			c.note("axiom %s: %v", d.Pos, err)
 			continue
 		}
-		c.assertGlobal(r)
+		c.assume(st, r)
 	}
 	entrySnapshot := st.clone()
 	c.entry = entrySnapshot
@@ -233,7 +235,7 @@ func (c *fnCtx) mergeInto(b *ssa.BasicBlock) *State {
 		return nil
 	}
 	li := c.loopOf[b]
-	st := &State{heap: map[string]string{}, ghost: map[string]string{}}
+	st := &State{heap: map[string]string{}, ghost: map[string]string{}, hbound: map[string]string{}}
 	// reach condition
 	var conds []string
 	for _, in := range incs {
@@ -300,6 +302,31 @@ func (c *fnCtx) mergeInto(b *ssa.BasicBlock) *State {
 			}
 		}
 		st.heap[k] = c.define("H", fmt.Sprintf("(Array Ref %s)", sort_), term)
+		sameB := true
+		b0 := c.boundOf(incs[0].st, k)
+		for _, in := range incs[1:] {
+			if c.boundOf(in.st, k) != b0 {
+				sameB = false
+			}
+		}
+		if sameB && b0 != "$cur" {
+			st.hbound[k] = b0
+		} else {
+			st.hbound[k] = "$cur"
+		}
+	}
+	{
+		sameBT := true
+		for _, in := range incs[1:] {
+			if in.st.baseTop != incs[0].st.baseTop {
+				sameBT = false
+			}
+		}
+		if sameBT && sameBase {
+			st.baseTop = incs[0].st.baseTop
+		} else {
+			st.baseTop = "$cur"
+		}
 	}
 	// top
 	{
@@ -360,6 +387,7 @@ func (c *fnCtx) mergeInto(b *ssa.BasicBlock) *State {
 			v.T = phi.Type()
 			c.vals[phi] = c.nameVal(v, "phi_"+phi.Comment)
 		}
+		c.sealBounds(st)
 		return st
 	}
 	// ---- loop header: check invariant on entry, havoc, assume invariant
@@ -429,6 +457,7 @@ func (c *fnCtx) mergeInto(b *ssa.BasicBlock) *State {
 		}
 		c.assume(st, t)
 	}
+	c.sealBounds(st)
 	li.headSt = st.clone()
 	return st
 }
@@ -564,8 +593,10 @@ func (c *fnCtx) finish() {
 	var posts []*Obligation
 	var postClauses []Clause
 	for _, e := range c.con.Ensures {
-		var disj []string
-		var pos token.Pos
+		kind := "post"
+		if e.Label != "" {
+			kind = "post:" + e.Label
+		}
 		for _, r := range normal {
 			env := c.newEnv(r.st, c.entry)
 			c.bindResults(env, r.results)
@@ -573,18 +604,12 @@ func (c *fnCtx) finish() {
 			if err != nil {
 				c.abort("%s: ensures: %v", e.Pos, err)
 			}
-			disj = append(disj, sAnd(r.st.cur, sNot(t)))
-			pos = r.pos
+			o := &Obligation{Name: c.oblName(kind), Fn: c.fnName, Kind: "post", Props: c.propsFor(e.Props), Clause: e.Text,
+				Pos: c.posStr(r.pos), Backend: "smt", declLen: c.sb.Len(), cur: r.st.cur, goal: t}
+			c.obls = append(c.obls, o)
+			posts = append(posts, o)
+			postClauses = append(postClauses, e)
 		}
-		kind := "post"
-		if e.Label != "" {
-			kind = "post:" + e.Label
-		}
-		o := &Obligation{Name: c.oblName(kind), Fn: c.fnName, Kind: "post", Props: c.propsFor(e.Props), Clause: e.Text,
-			Pos: c.posStr(pos), Backend: "smt", declLen: c.sb.Len(), extra: sOr(disj...)}
-		c.obls = append(c.obls, o)
-		posts = append(posts, o)
-		postClauses = append(postClauses, e)
 	}
 	// replay formulas: the clause over the parameter constants and fresh result constants
 	for i, o := range posts {
@@ -650,6 +675,11 @@ func (c *fnCtx) bindResults(env *Env, rs []SymVal) {
 				r.T = res.At(i).Type()
 			}
 			env.vars[names[i]] = r
+			if len(rs) == 1 {
+				env.vars["result"] = r
+			} else {
+				env.vars[fmt.Sprintf("result%d", i)] = r
+			}
 			// the type-based alias (e.g. "err" for a trailing unnamed error)
 			if i == len(rs)-1 && isErrorType(res.At(i).Type()) {
 				if _, ok := env.vars["err"]; !ok {
